@@ -13,6 +13,7 @@ pub mod p_nrpn;
 pub mod pollobs;
 pub mod p_meta;
 pub mod p_rt;
+pub mod fuzzing;
 #[cfg(feature = "hm_serde")]
 pub mod p_serde;
 #[cfg(feature = "hm_std")]
